@@ -272,6 +272,42 @@ def gen_sums(ctx):
     return {"kind": "accepted"}
 
 
+@harness("c20.interval_overlap", extra=GEN_EXTRA, float_mix="real")
+def interval_overlap(ctx):
+    """preference intervals with overlapping candidate sets are refused whatever the supports are
+    (including an overlap that runs only through zero-support candidates)"""
+    from votekit.pref_interval import PreferenceInterval, combine_preference_intervals
+    P = ctx.params
+    groups = P["groups"]
+    ivs = []
+    for gi, g in enumerate(groups):
+        sup = {}
+        for c in g:
+            v = ctx.real(f"s{gi}_{c}", lo=0, snap=True)
+            sup[c] = v if ctx.sym else float(v)
+        ctx.assume(gt(add(*[ctx.real(f"s{gi}_{c}", lo=0, snap=True) if False else (sup[c] if ctx.sym else RealFraction(ctx.model[f"s{gi}_{c}"])) for c in g]), 0))
+        ivs.append(PreferenceInterval(dict(sup)))
+    props = [1.0 / len(groups)] * len(groups)
+    overlap = len(set(c for g in groups for c in g)) != sum(len(g) for g in groups)
+    if ctx.canary == "overlap-tolerated":
+        overlap = False
+    try:
+        combine_preference_intervals(ivs, props)
+    except ValueError:
+        if not overlap:
+            ctx.fail("c20:disjoint-intervals-rejected", f"{groups}")
+        else:
+            ctx.require(True, "c20:rejected")
+        return {"kind": "valueerror"}
+    except Exception as exc:
+        ctx.fail(f"c20:interval-wrong-exception:{type(exc).__name__}", str(exc)[:200])
+        return {"kind": "exc"}
+    if overlap:
+        ctx.fail("c20:overlapping-intervals-accepted", f"intervals over {groups} share a candidate but were combined")
+    ctx.require(True, "c20:accepted")
+    return {"kind": "accepted"}
+
+
 def direct_clauses():
     from sx import env
     env.import_votekit()
@@ -371,6 +407,10 @@ def tasks(tier, seed):
     for cls in ("name_PlackettLuce", "slate_PlackettLuce", "name_BradleyTerry", "AlternatingCrossover", "name_Cumulative"):
         for which in ("props", "cohesion0", "cohesion1"):
             out.append({"harness": "c20.gen_sums", "params": {"cls": cls, "which": which}, "sig_keys": ["cls", "which"], "name": f"generator sums {cls} {which}"})
+    for groups in ([["a", "b"], ["b", "c"]], [["a", "b"], ["c"]], [["a"], ["b", "c"], ["c", "d"]], [["a", "b"], ["c", "a"]]):
+        out.append({"harness": "c20.interval_overlap", "params": {"groups": groups}, "sig_keys": [], "name": f"interval overlap {groups}"})
+    out.append({"harness": "c20.interval_overlap", "params": {"groups": [["a", "b"], ["b", "c"]]}, "canary": "overlap-tolerated", "stop_on_violation": True,
+                "name": "canary:overlap-tolerated", "xval_stride": 0})
     out.append({"harness": "c20.gen_sums", "params": {"cls": "name_PlackettLuce", "which": "props"}, "canary": "sum-below-one-accepted", "stop_on_violation": True,
                 "name": "canary:sum-below-one-accepted", "xval_stride": 0})
     out.append({"kind": "call", "module": "props.c20", "func": "run_direct", "harness": "c20.direct", "name": "direct clauses (duplicate candidates, quota names)"})
